@@ -1,5 +1,5 @@
 (* Proofs/MergePrio.v — C03 as a refinement: mapping documents whose scalars and mappings carry ARBITRARY priorities
-   (no !del / !new marks, no lists), merged into any tree of the same kind, build exactly Spec.UpdateP.upd_p. *)
+   (no !del / !notnew marks, no lists; !new and safety marks are free), merged into any tree of the same kind, build exactly Spec.UpdateP.upd_p. *)
 From AY Require Import Model.Merge Proofs.NodeInd Proofs.FlagsLemmas Proofs.FactsOk Spec.Update Spec.UpdateP
   Proofs.MergePlain Proofs.NotNew Model.Loader Proofs.EvalPlain Proofs.LoaderLemmas Proofs.Laws Proofs.MergeNotNew Proofs.MergeGen.
 
@@ -37,8 +37,9 @@ Lemma perase_with_flags n f : priority f = priority (nflags n) -> perase (with_f
 Proof. intro E. destruct n as [k f0 v|k f0 x ch]; cbn [with_flags nflags] in *; [cbn; now rewrite E|]. rewrite !perase_comp. now rewrite E. Qed.
 
 (* ---------- the classes ---------- *)
-Definition OZ (f : flags) : Prop := f_del f = None /\ f_new f = None.
-Definition NZ (f : flags) : Prop := OZ f /\ f_inew f = None.
+(* `!new` marks are allowed (they only repeat the default); `!notnew` is not *)
+Definition OZ (f : flags) : Prop := f_del f = None.
+Definition NZ (f : flags) : Prop := OZ f /\ f_new f <> Some false /\ f_inew f <> Some false.
 
 Inductive OldZ : node -> Prop :=
 | OZLeaf f v : OZ f -> OldZ (Leaf LScalar f v)
@@ -69,7 +70,7 @@ Proof.
 Qed.
 
 Lemma OZ_same_explicit f f' : same_explicit f f' -> OZ f -> OZ f'.
-Proof. intros (a & b & c & _) (h2 & h3). split; congruence. Qed.
+Proof. intros (a & b & c & _) h2. unfold OZ in *. congruence. Qed.
 
 Lemma OldZ_sim : forall a b, Sim a b -> OldZ a -> OldZ b.
 Proof.
@@ -91,7 +92,7 @@ Lemma propagate_oldz n : OldZ n -> OldZ (propagate n).
 Proof. apply OldZ_sim, propagate_sim. Qed.
 
 Lemma OldZ_explicit_delete n : OldZ n -> explicit_delete n = false.
-Proof. intro H. apply OldZ_OZ in H. destruct H as (H & _). unfold explicit_delete. now rewrite H. Qed.
+Proof. intro H. apply OldZ_OZ in H. unfold OZ in H. unfold explicit_delete. now rewrite H. Qed.
 
 Lemma OldZ_PlainT : forall n, OldZ n -> EvalPlain.PlainT n.
 Proof.
@@ -102,7 +103,7 @@ Proof.
 Qed.
 
 Lemma NZ_allow_new f : NZ f -> allow_new f = true.
-Proof. intros [_ H]. unfold allow_new. now rewrite H. Qed.
+Proof. intros (_ & _ & H). unfold allow_new, onone. destruct (f_inew f) as [[|]|]; [reflexivity|congruence|apply default_allow_new]. Qed.
 
 Lemma nwp_newz : forall n pre, NewZ n -> Forall (fun pn => NewZ (snd pn)) (nwp pre n).
 Proof.
@@ -127,13 +128,13 @@ Proof.
 Qed.
 
 Lemma NZ_absorb a b : NZ a -> NZ (absorb a b).
-Proof. intros [(h2 & h3) h4]. split; [split; auto|exact h4]. Qed.
+Proof. intros (h2 & h3 & h4). split; [exact h2|split; [exact h3|exact h4]]. Qed.
 
 Lemma OZ_absorb a b : OZ a -> OZ (absorb a b).
-Proof. intros (h2 & h3). split; auto. Qed.
+Proof. intro h2. exact h2. Qed.
 
 Lemma OZ_become a b : OZ a -> OZ b -> OZ (become a b).
-Proof. intros (h2 & h3) (g2 & g3). split; auto. Qed.
+Proof. intros h2 g2. exact g2. Qed.
 
 Lemma priority_absorb a b : priority (absorb a b) = priority a.
 Proof. reflexivity. Qed.
@@ -276,7 +277,7 @@ Proof.
         clear - Hin. unfold list_sum. induction cho as [|[k' v'] r IHr]; [contradiction|]. cbn [map fold_right snd fst]. destruct Hin as [E|Hin]; [inversion E; subst; lia|].
         specialize (IHr Hin). lia. }
       assert (Edo : delete o = false).
-      { destruct HN as [(Hd & _) _]. unfold o, delete. cbn [nflags]. rewrite Hd, Hi. cbn. apply dict_default_delete. }
+      { destruct HN as [Hd _]. unfold OZ in Hd. unfold o, delete. cbn [nflags]. rewrite Hd, Hi. cbn. apply dict_default_delete. }
       inversion Hs as [|f0 x0 ch0 HOX HFch Hnd0]; subst.
       assert (Eo : perase o = PPD (priority fo) (pch cho)) by (unfold o; apply perase_comp).
       rewrite perase_comp, Eo, upd_p_DD.
